@@ -24,6 +24,7 @@ EXPLANATION = (
     "selected Erbest is re-registered under erbest == Some with its own header, message and AGE, and that age "
     "reaches the stored record unchanged through every call on the way. FM-7: a full record list drops the "
     "oldest message, never the new one."
+    " FM-8: value-flow chains - the Duration PtpInstanceState::bmca is called with reaches ForeignMaster::step_age's `age += step` unchanged through Port::step_announce_age, Bmca::step_age and ForeignMasterList::step_age, and the interval Port::new hands to Bmca::new is the port's announce interval, stored by ForeignMasterList::new and used by purge_old_messages for the window."
 )
 NOT_DECIDED = ("'within a bounded number of announce intervals' / 'never dropped while announcing regularly' as "
                "temporal statements; behaviour beyond the record capacity of 8")
@@ -98,7 +99,7 @@ def run(ctx):
     rep.rule("FM-7", "a full message list evicts the oldest entry", floor=1)
     rep.rule("FM-8", "records age by the BMCA interval the instance was called with, and the window is counted in the "
                      "port's announce interval (value-flow chains from PtpInstanceState::bmca / Port::new to the "
-                     "foreign master records)", floor=9)
+                     "foreign master records)", floor=7)
 
     # ---------------- FM-1
     try:
